@@ -437,6 +437,13 @@ func c18Run(name string, cfg world.Config, tour []tourStep, pairs bool, dl time.
 								where+": a session for "+u2+" was issued on a "+bad+" whose consumption was not saved", path)
 						}
 					}
+					// O5: a remember token that storage reported consumed during the request is not back in the table afterwards
+					for _, h := range o.UsedTokens {
+						if tokenRowHas(cl, h) {
+							report("spent-token-restored", "request="+oRef.Req.Tag.Kind+",call="+calls[k],
+								where+": a remember token that UseRememberToken had consumed is in the token table again after the request: the spent cookie is acceptable again", path)
+						}
+					}
 					// O4: a failed request only ever invalidates credentials
 					post := acceptable(s, cl, w, actor)
 					for k2 := range post {
